@@ -33,6 +33,8 @@ type env struct {
 	cl    *dvc.Client
 	r     *rand.Rand
 	races bool
+	// labelmap rounds whose mappings are read again after the restart at the end of the batch
+	lmAfter []lmRecheck
 }
 
 func (e *env) delays() string {
@@ -685,6 +687,178 @@ func (e *env) labelmap(idx int) error {
 			break
 		}
 	}
+	// the merges were also appended, concurrently, to the version's mutation log - the first appends that log ever saw.
+	// Two readers of the log judge it: the mutation history of the target now, and the start-up replay at the end of the batch.
+	hr, err := e.w.Get(fmt.Sprintf("/api/node/%s/lm/history/%d/%s/%s", u, target, u, u))
+	if err != nil {
+		if e.w.Dead() {
+			e.c.Violation("labelmap:history-after-concurrent-merges-kills-server", fmt.Sprintf("GET history of body %d after %d concurrent acknowledged merges (delays %s): the server process died: %s", target, len(reqs), dl, drv.Trunc(drv.FatalInStderr(e.w.Stderr()), 500)), wit)
+			return errBatchOver
+		}
+		return err
+	}
+	if hr.Panicked() {
+		e.c.Violation("labelmap:panic-under-concurrency", fmt.Sprintf("GET history after concurrent merges answered %s", hr), wit)
+	}
+	e.lmAfter = append(e.lmAfter, lmRecheck{u: u, target: target, svs: all, merges: len(reqs), delays: dl})
+	return nil
+}
+
+// labelmapMixed: merges, cleaves and supervoxel splits of disjoint bodies issued at once on a version whose mutation log
+// has never been appended to (a fresh instance) - the different operations log through different code paths.  Each
+// acknowledged operation must be in the log exactly as it was acknowledged: the mapping of every supervoxel is read
+// now and again after the restart at the end of the batch (start-up replays the log), and the mutation history is read.
+func (e *env) labelmapMixed(idx int) error {
+	wd, err := mixed.New(e.w, rand.New(rand.NewSource(e.r.Int63())), mixed.Opts{Types: []string{"lm"}, Tag: fmt.Sprintf("c11m-%d", idx)})
+	if err != nil {
+		return err
+	}
+	u := wd.Root
+	// four versions in a row: every new version starts with a mutation log nobody has appended to yet
+	for gen := 0; gen < 4; gen++ {
+		if gen > 0 {
+			if err := wd.H.CommitNode(u); err != nil {
+				return err
+			}
+			child, err := wd.H.NewVersionOf(u)
+			if err != nil {
+				return err
+			}
+			wd.Fork(u, child)
+			u = child
+		}
+		used := map[uint64]bool{}
+		var plans []*mixed.Plan
+		for i, n := 0, 3+e.r.Intn(4); i < n; i++ {
+			var p *mixed.Plan
+			switch i % 3 {
+			case 0:
+				p = wd.PlanSplitSV(u, used)
+			case 1:
+				p = wd.PlanCleave(u, used)
+			default:
+				p = wd.PlanMerge(u, used)
+			}
+			if p == nil {
+				p = wd.PlanMerge(u, used)
+			}
+			if p != nil {
+				plans = append(plans, p)
+			}
+		}
+		if len(plans) < 2 {
+			break
+		}
+		e.w.SetDelay(0, 0, false)
+		reqs := make([]drv.Req, len(plans))
+		var kinds, descs []string
+		for i, p := range plans {
+			reqs[i] = p.Req
+			kinds = append(kinds, p.Kind)
+			descs = append(descs, p.Desc)
+		}
+		resps, err := e.w.Par(reqs)
+		if err != nil {
+			return err
+		}
+		if err := e.w.Settle(); err != nil {
+			return err
+		}
+		for i, p := range plans {
+			if resps[i].Panicked() {
+				e.c.Violation("labelmap:panic-under-concurrency", fmt.Sprintf("concurrent %s answered %s", p.Kind, resps[i]), nil)
+			}
+			if !resps[i].OK() {
+				descs[i] += " => " + drv.Trunc(resps[i].String(), 200)
+			}
+			wd.ApplyPar(p, resps[i])
+		}
+		sig := overlapSig(resps)
+		e.c.Case(fmt.Sprintf("lm-mixed|%d|%s", idx, drv.Hash(sig)), true)
+		e.c.Seen("lm_mixed_interleaving_signatures", drv.Hash(sig))
+		e.c.Count("labelmap_concurrent_mixed_ops", len(reqs))
+		// every supervoxel the model knows after the operations, and where it maps now
+		var svs []uint64
+		for _, ss := range wd.Bodies(u) {
+			svs = append(svs, ss...)
+		}
+		sort.Slice(svs, func(i, j int) bool { return svs[i] < svs[j] })
+		body, _ := json.Marshal(svs)
+		rp, err := e.w.HTTP("GET", fmt.Sprintf("/api/node/%s/lm/mapping", u), body)
+		if err != nil {
+			return err
+		}
+		var mp []uint64
+		json.Unmarshal(rp.Body, &mp)
+		wit := map[string]interface{}{"kinds": kinds, "statuses": statuses(resps), "overlap": sig}
+		for b := range wd.Bodies(u) {
+			hr, err := e.w.Get(fmt.Sprintf("/api/node/%s/lm/history/%d/%s/%s", u, b, u, u))
+			if err != nil {
+				if e.w.Dead() {
+					e.c.Violation("labelmap:history-after-concurrent-operations-kills-server", fmt.Sprintf("GET history of body %d after concurrent acknowledged %v: the server process died: %s", b, kinds, drv.Trunc(drv.FatalInStderr(e.w.Stderr()), 500)), wit)
+					return errBatchOver
+				}
+				return err
+			}
+			if hr.Panicked() {
+				e.c.Violation("labelmap:panic-under-concurrency", fmt.Sprintf("GET history after concurrent %v answered %s", kinds, hr), wit)
+			}
+			break // one body is enough: the handler streams the whole log of the version
+		}
+		e.lmAfter = append(e.lmAfter, lmRecheck{u: u, svs: svs, before: mp, merges: len(reqs), delays: strings.Join(kinds, "+"), descs: descs, statuses: statuses(resps)})
+	}
+	return nil
+}
+
+// errBatchOver ends a batch whose server process died (the death itself was reported as a violation).
+var errBatchOver = fmt.Errorf("batch over")
+
+type lmRecheck struct {
+	u        string
+	target   uint64   // every supervoxel maps here, or
+	before   []uint64 // (target == 0) the mapping of each supervoxel before the restart
+	svs      []uint64
+	merges   int
+	delays   string
+	descs    []string
+	statuses []int
+}
+
+// lmReplay: after a restart the mappings are rebuilt from the mutation logs the concurrent merges appended to.
+func (e *env) lmReplay() error {
+	for _, x := range e.lmAfter {
+		body, _ := json.Marshal(x.svs)
+		rp, err := e.w.HTTP("GET", fmt.Sprintf("/api/node/%s/lm/mapping", x.u), body)
+		if err != nil {
+			return err
+		}
+		var mp []uint64
+		json.Unmarshal(rp.Body, &mp)
+		e.c.Case(fmt.Sprintf("lm-replay|%s|%d", x.u[:8], x.target), true)
+		e.c.Count("labelmap_mappings_reread_after_restart", len(x.svs))
+		bad := 0
+		first := ""
+		for i, m := range mp {
+			want := x.target
+			if x.target == 0 && i < len(x.before) {
+				want = x.before[i]
+			}
+			if i < len(x.svs) && m != want {
+				if bad == 0 {
+					first = fmt.Sprintf("supervoxel %d maps to %d, before the restart to %d", x.svs[i], m, want)
+				}
+				bad++
+			}
+		}
+		if x.target == 0 && (bad > 0 || len(mp) != len(x.svs)) {
+			e.c.Violation("labelmap:acknowledged-operations-lost-after-restart", fmt.Sprintf("%d concurrent acknowledged operations (%s) on a fresh labelmap version: after a restart %d of %d supervoxels map differently than before it (%s; answer %d %s)",
+				x.merges, x.delays, bad, len(x.svs), first, rp.Status, drv.Trunc(string(rp.Body), 120)), map[string]interface{}{"version": x.u, "operations": x.descs, "statuses": x.statuses, "supervoxels": x.svs, "before": x.before, "after": mp})
+		} else if bad > 0 || len(mp) != len(x.svs) {
+			e.c.Violation("labelmap:acknowledged-merges-lost-after-restart", fmt.Sprintf("%d concurrent acknowledged merges into body %d (delays %s) were all visible before the restart; after it %d of %d supervoxels no longer map to %d (%s; answer %d %s)",
+				x.merges, x.target, x.delays, bad, len(x.svs), x.target, first, rp.Status, drv.Trunc(string(rp.Body), 120)), map[string]interface{}{"target": x.target, "version": x.u})
+		}
+	}
+	e.lmAfter = nil
 	return nil
 }
 
@@ -919,11 +1093,33 @@ func batch(c *drv.Ctx, bin string, seed int64, idx int, rounds int, races bool) 
 	defer w.Kill()
 	for i := 0; i < rounds; i++ {
 		id := idx*1000 + i
-		steps := []func(int) error{e.kvRegisters, e.annotations, e.annBlocks, e.labelmap, e.neuronjson, e.versions}
+		steps := []func(int) error{e.kvRegisters, e.annotations, e.annBlocks, e.labelmap, e.labelmapMixed, e.neuronjson, e.versions}
 		for _, f := range steps {
-			if err := f(id); err != nil {
+			if err := f(id); err == errBatchOver {
+				return "", nil // the violation is recorded; this batch's server is gone
+			} else if err != nil {
 				return "", fmt.Errorf("batch %d round %d: %v; stderr: %s", idx, i, err, drv.Trunc(drv.FatalInStderr(w.Stderr()), 600))
 			}
+		}
+	}
+	if len(e.lmAfter) > 0 {
+		if err := w.Settle(); err != nil {
+			return "", err
+		}
+		if err := w.Exit("clean"); err != nil {
+			return "", err
+		}
+		w2, err := drv.StartWorker(bin, dir, so)
+		if err != nil {
+			c.Violation("restart-fails-after-concurrent-rounds", fmt.Sprintf("batch %d: the server does not start again after the concurrent rounds: %v; stderr: %s", idx, err, drv.Trunc(drv.FatalInStderr(w2.Stderr()), 600)), nil)
+			return "", nil
+		}
+		w2.Watchdog = 300 * time.Second
+		defer w2.Kill()
+		w = w2
+		e.w, e.cl.W = w2, w2
+		if err := e.lmReplay(); err != nil {
+			return "", fmt.Errorf("batch %d replay after restart: %v; stderr: %s", idx, err, drv.Trunc(drv.FatalInStderr(w.Stderr()), 600))
 		}
 	}
 	var raceText string
